@@ -13,6 +13,8 @@ mod dump;
 mod gen_arith;
 #[path = "../gen_units.rs"]
 mod gen_units;
+#[path = "../tables.rs"]
+mod tables;
 
 fn main() {
     let args: Vec<String> = std::env::args().collect();
@@ -25,6 +27,7 @@ fn main() {
         "c19" => c19_alloc::run(&opts),
         "c19-replay" => c19_alloc::replay(&opts),
         "dump" => dump::run(&opts),
+        "tables" => tables::run(&opts),
         "eval-worker" => evalsess::worker(),
         "eval-run" => runner::run(&opts),
         "gen-c01" => gen_arith::run(&opts),
